@@ -56,6 +56,8 @@ class AstToSqlAlchemyOrmVisitor(common._CommonVisitors, visitor.NodeVisitor):
         ):
             node = ast.Compare(node.comparator, node.right, node.left)
 
+        self._refuse_uncomparable(node)
+
         left = self.visit(node.left)
         right = self.visit(node.right)
         op = self.visit(node.comparator)
